@@ -339,6 +339,36 @@ def run(ctx: Context, rep) -> None:
 
     rustrules.check_recv(ctx, rep, "C07.rust-recv")
     rustrules.panic_inventory(ctx, rep, "C07.rust-panics")
+    from sa.rules import common as C
+    from sa.rules import shared
+    shared.check_exit_propagates(ctx, rep, "C07.exit")
+    # only the native interface may depend on the native reader (whose
+    # receive collapses a dead worker into end-of-stream: known finding
+    # C07.rust-recv); routing another interface through it widens the finding
+    rep.rule(
+        "C07.rust-exposure",
+        "RustGenerator / as_numpy_iterator_rust are used by the native "
+        "interface only; no other iteration interface is built on them")
+    users = []
+    n_sites = 0
+    for fn in ctx.repo.module(C.ITER_MOD).functions.values():
+        if isinstance(fn.node, ast.Lambda):
+            continue
+        for n in fn.body_nodes():
+            hit = (isinstance(n, ast.Attribute) and
+                   n.attr == "as_numpy_iterator_rust") or (
+                       isinstance(n, ast.Name) and n.id == "RustGenerator")
+            if hit:
+                n_sites += 1
+                if not (fn.qualname.startswith("RustGenerator") or
+                        "as_numpy_iterator_rust" in fn.qualname):
+                    users.append(f"{fn.qualname}: L{n.lineno}")
+    rep.ob("C07.rust-exposure", not users, loc=ctx.fn(C.INTERFACES[4]).loc(),
+           where="DatasetIteration", construct=f"other users: {users}"
+           if users else f"{n_sites} reference(s), all in the native "
+           "interface", message="the native reader's failure semantics must "
+           "not leak into the other interfaces")
+
 
 
 _LP = "src/sedpack/io/itertools/lazy_pool.py"
